@@ -795,3 +795,51 @@ theorem C16_m6_early_unlock_leaks :
 theorem C16_m6_schedule_impossible_on_real_code :
     GB.LTS.run (astep .real) ainit (m6Schedule.take 13) = none := by
   decide
+
+/-! ## the wait loop of waitForReady, state by state (seeded C16-m7 / C02-m8) -/
+
+theorem waitFrom_shutdown (dl : Bool) (l : List CS) (m : Nat) : waitFrom .inLoop dl l .shutdown m = .returned m := by
+  cases l <;> simp [waitFrom]
+
+theorem waitFrom_ends_on_close (dl : Bool) (pre rest : List CS) (cur : CS) (n : Nat)
+    (hcur : cur ≠ .ready ∧ cur ≠ .shutdown) (hpre : ∀ x ∈ pre, x ≠ .ready ∧ x ≠ .shutdown) :
+    waitFrom .inLoop dl (pre ++ .shutdown :: rest) cur n = .returned (n + pre.length + 1) := by
+  induction pre generalizing cur n with
+  | nil => simp [waitFrom, hcur.1, hcur.2, waitFrom_shutdown]
+  | cons x xs ih =>
+    simp only [List.cons_append, waitFrom, hcur.1, hcur.2, if_false, and_false]
+    rw [ih x (n + 1) (hpre x (by simp)) (fun y hy => hpre y (by simp [hy]))]
+    simp only [List.length_cons]; congr 1; omega
+
+/-- Once the connection is Shutdown the waiting Stream returns within one loop iteration — whatever state it was
+    waiting in (Idle / Connecting / TransientFailure, through any sequence `pre` of such states), with or without a
+    deadline, and whatever would have come afterwards: it returns exactly at the iteration that observes Shutdown
+    (`pre.length + 1` reported changes), and at once if the first GetState already answers Shutdown. -/
+theorem C16_stream_wait_ends_on_close (dl : Bool) (cur : CS) (pre rest : List CS)
+    (hcur : cur ≠ .ready ∧ cur ≠ .shutdown) (hpre : ∀ x ∈ pre, x ≠ .ready ∧ x ≠ .shutdown) :
+    waitLoop .inLoop dl cur (pre ++ .shutdown :: rest) = .returned (pre.length + 1) ∧
+    waitLoop .inLoop dl .shutdown rest = .returned 0 := by
+  constructor
+  · simp only [waitLoop]
+    rw [if_neg (by simp), waitFrom_ends_on_close dl pre rest cur 0 hcur hpre]; congr 1; omega
+  · simp [waitLoop, waitFrom_shutdown]
+
+/-- Negative witness for the hoisted check (C16-m7 / C02-m8): the documented race still works (Shutdown at the first
+    GetState), but a connection closed WHILE the Stream waits on a not-ready connection (Connecting → Shutdown,
+    TransientFailure → Connecting → Shutdown) makes a call without a deadline wait for ever, one with a deadline
+    until the halved deadline. Last clause: the code before fix D17c (no check at all). -/
+theorem C16_hoisted_shutdown_check_waits_forever :
+    waitLoop .hoisted false .shutdown [] = .returned 0 ∧
+    waitLoop .hoisted false .connecting [.shutdown] = .never ∧
+    waitLoop .hoisted true .connecting [.shutdown] = .ctxDone ∧
+    waitLoop .hoisted false .transientFailure [.connecting, .shutdown] = .never ∧
+    waitLoop .inLoop false .transientFailure [.connecting, .shutdown] = .returned 2 ∧
+    waitLoop .absent false .shutdown [] = .never := by
+  decide
+
+/-- Facts tie (regenerated from grpcadapter/conn.go): the Shutdown comparison (and its return) is INSIDE the `for`
+    statement of waitForReady, before WaitForStateChange; before the loop there is only GetState / the Idle check /
+    Connect. -/
+theorem C16_facts_wait_loop :
+    GB.Generated.c16WaitBeforeLoop = expectedWaitBeforeLoop ∧ GB.Generated.c16WaitInLoop = expectedWaitInLoop := by
+  decide
